@@ -150,18 +150,24 @@ func clusterCase(prop, id string, r *rng, healthy bool) {
 			mn.rec.meta = mdPool[md]
 			tok = fmt.Sprintf("U:%s:%d", names[x], md)
 			done := make(chan error, 1)
-			go func() { done <- mn.m.UpdateNode(time.Millisecond) }()
+			go func() { defer panicsAsNil(done); done <- mn.m.UpdateNode(time.Millisecond) }()
 			select {
-			case <-done:
+			case err := <-done:
+				if err == errPanicked {
+					tok += "!blocked"
+				}
 			case <-time.After(5 * time.Second):
 				tok += "!blocked"
 			}
 		case k < 72:
 			tok = "L:" + names[x]
 			done := make(chan error, 1)
-			go func() { done <- mn.m.Leave(time.Millisecond) }()
+			go func() { defer panicsAsNil(done); done <- mn.m.Leave(time.Millisecond) }()
 			select {
-			case <-done:
+			case err := <-done:
+				if err == errPanicked {
+					tok += "!blocked"
+				}
 			case <-time.After(5 * time.Second):
 				tok += "!blocked"
 			}
